@@ -70,8 +70,18 @@ func vTranspilePkg(src string) (res string, err string) {
 		}
 		vFoiSrc = string(b)
 	}
-	// pkg_all.foi is parsed once; every call starts from a copy of the root scope it produced
-	// (the scope dictionaries are mutated in place by later definitions)
+	ps := vPkgState()
+	ps3 := psSetNewSrc(src, ps)
+	_, stmts := parseAll(ps3)
+	return RootStmtsToGo(stmts), ""
+}
+
+var vFoiScope Scope
+
+// a parse state as it is after `fc pkg_all.foi`: pkg_all.foi is parsed once per process; every call
+// starts from a copy of the root scope it produced (the scope dictionaries are mutated in place by
+// later definitions).  vFoiSrc must be loaded.
+func vPkgState() ParseState {
 	if vFoiScope == nil {
 		ps0 := initParse(vFoiSrc)
 		ps1, _ := parseAll(ps0)
@@ -90,12 +100,8 @@ func vTranspilePkg(src string) (res string, err string) {
 		sd.TypeFacMap.Fdict[k] = v
 	}
 	ps.scope = NewScopeImpl0(sd)
-	ps3 := psSetNewSrc(src, ps)
-	_, stmts := parseAll(ps3)
-	return RootStmtsToGo(stmts), ""
+	return ps
 }
-
-var vFoiScope Scope
 
 func init() {
 	mode := os.Getenv("FC_VERIF")
